@@ -1,4 +1,4 @@
 """C13 — conv-probe property (see vlib/props/convprops.py)."""
 from vlib.props import convprops as P, convcommon as cc
 from vlib import convgen as g
-globals().update(P.make('C13', 'conv probe in LMTP mode: recipient lists with duplicates x status scripts (subsets, orders, unknown recipient, too many) x return value x {DATA, BDAT} x {LMTPSession, plain backend}; sweep + walks. non-trivial = at least one callback', ['C13_attribution (pending)'], None, lambda a: cc.project(a, codes='exact', enh=True, lmtp=True, drecs='ret'), tls=False, configs=[c for c in g.CONFIGS if c.get('lmtp')]))
+globals().update(P.make('C13', 'conv probe in LMTP mode: every recipient list up to the tier length over {Postmaster@x.org, postmaster@x.org (case variant), b@y.net} x status scripts (empty, and sampled sub-multisets of the occurrences in every order; unknown recipient and one-too-many on the BDAT path) x return value x {DATA, BDAT} x {LMTPSession, plain backend}; sweep + walks. non-trivial = at least one callback', ['C13_attribution (pending)'], [('lmtp-status-scripts', P.c13_cases)], lambda a: cc.project(a, codes='exact', enh=True, lmtp=True, drecs='ret'), tls=False, configs=[c for c in g.CONFIGS if c.get('lmtp')]))
